@@ -1373,6 +1373,14 @@ func (p *Parser) resolveMethodCalls(objIndex uint32) parseResult {
 		}
 
 		if argObj.opcode != pOpIntNamePathOrMethodCall || argObj.tableHandle != p.tableHandle {
+			// Operators to the right of a method invocation may still
+			// have their own args in the sibling list. They must collect
+			// them before the invocation claims its args; otherwise
+			// FOOF(DerefOf(X), 1) would consume DerefOf and X instead
+			// of DerefOf(X) and 1.
+			if p.connectMissingArgs(obj, argObj) == parseResultFailed {
+				return parseResultFailed
+			}
 			continue
 		}
 
@@ -1420,6 +1428,30 @@ func (p *Parser) resolveMethodCalls(objIndex uint32) parseResult {
 	}
 
 	return parseResultOk
+}
+
+// connectMissingArgs attaches to argObj (a non-named child of obj) the args
+// that the parser has left in the sibling list following it. It applies the
+// same rules as connectNonNamedObjArgs to a single object.
+func (p *Parser) connectMissingArgs(obj, argObj *Object) parseResult {
+	if pOpcodeTable[argObj.infoIndex].flags&pOpFlagNamed != 0 || argObj.tableHandle != p.tableHandle {
+		return parseResultOk
+	}
+
+	argFlags := pOpcodeTable[argObj.infoIndex].argFlags
+	argCount := argFlags.argCount()
+	termArgIndex := uint8(0)
+	for ; termArgIndex < argCount; termArgIndex++ {
+		if argType := argFlags.arg(termArgIndex); argType == pArgTypeTermArg || argType == pArgTypeDataRefObj {
+			break
+		}
+	}
+
+	if termArgIndex >= argCount || p.objTree.NumArgs(argObj) > uint32(termArgIndex) {
+		return parseResultOk
+	}
+
+	return p.attachSiblingsAsArgs(obj, argObj, argCount-termArgIndex, true)
 }
 
 // attachSiblingsAsArgs detaches numArgs sibling nodes of targetObj and
